@@ -37,7 +37,12 @@ RULE = ("histories of 2..14 operations: public mutators (translate_rotate on sce
         "occupy now and occupied before, lanelet polygon / distance / inner_distance, get_state_at_time_step around the phase "
         "boundaries of the old and the new cycle); every mutator is preceded by a query that fills the cache it could leave stale and "
         "followed by one that reads it. distinct = canonical JSON of the history; non-trivial = contains query -> mutator -> query on "
-        "the same cache")
+        "the same cache. Round 6: Scenario.remove_lanelet with a lanelet or a list that names a stranger / a lanelet twice / a lanelet the "
+        "scenario has not registered, and replace_lanelet_network over such a lanelet — the call raises half way and lookups follow; family "
+        "duo: TWO networks alive side by side, the second derived from the first (at any point of its history) by "
+        "create_from_lanelet_list(first.lanelets, cleanup_ids True / False), create_from_lanelet_network, deepcopy, pickle or "
+        "add_lanelets_from_network, each optionally inside its own Scenario; mutators on either network, each followed by queries on BOTH at "
+        "the places the lanelets of both networks occupy and occupied")
 ASSUMPTIONS = [
     "DIMENSIONS lists every constructor parameter, settable attribute, public method and read-only attribute of the 12 anchored "
     "classes with one decision each (varied / query / fixed / outside / n/a); check_dimensions() compares it with the real classes on "
@@ -54,8 +59,14 @@ ASSUMPTIONS = [
     "add_lanelet / remove_lanelet with rtree=False ask for the index NOT to be rebuilt: lookups are compared with the model but "
     "not judged by the oracle until an add/remove with rtree=True has rebuilt it; likewise after a network translate_rotate that raised "
     "half way on a 3-D lanelet (the model says which lanelets moved) until a later translate_rotate / replacement rebuilds the index",
-    "raising mutators: the generated ones raise before they change anything (the model: state unchanged) and the history goes on; the "
-    "oracle reports a mutator that leaves primary data the public constructors reject",
+    "raising mutators: fail/* raise before they change anything (the model: state unchanged) and the history goes on; the "
+    "oracle reports a mutator that leaves primary data the public constructors reject. Scenario.remove_lanelet / replace_lanelet_network "
+    "raise HALF WAY (KeyError after some removals; the model says where they stop, given the harness's own account of the ids the scenario "
+    "has registered): the lookups that follow are judged by the oracle like any other",
+    "family duo: a fourth pair-instance is stale on the real code and recorded in known-findings.txt — add_lanelets_from_network hands the "
+    "source network's own Lanelet objects to the second network, so either network's translate_rotate moves lanelets the other one holds "
+    "without telling it (C11_witness_shared_lanelets; the model predicts the exact stale answer); while the harness's own account says "
+    "a network holds such a moved shared lanelet, a stale lookup is attributed to that; every copying derivation must be independent",
     "version tokens of the model are materialised by fresh objects built from snapshots (copy.deepcopy of the public getters' values)",
 ]
 TRUSTED = ["copy.deepcopy / pickle of numpy arrays and commonroad value objects reproduce the primary data"]
@@ -101,7 +112,13 @@ REQUIRED_BUCKETS = [f"row/{i}/{m}" for i, m in ROWS] + [
     "dim/lanelet-reader-interpolate", "dim/index-reader-state", "dim/index-reader-subnet", "dim/create-from-network", "dim/replace-network",
     "dim/remove-lanelet-list", "dim/half-moved-network-then-queries", "dim/cycle-copy", "dim/cycle-set_dur", "dim/cycle-set_state",
     "dim/cycle-list_edit", "dim/cycle-aggregate-preserving-edit", "dim/next-state-agrees-pos", "dim/next-state-agrees-pos+ori",
-    "dim/next-state-agrees-ori", "dim/next-state-agrees-pos+ori+vel"]
+    "dim/next-state-agrees-ori", "dim/next-state-agrees-pos+ori+vel",
+    # round 6: a list removal that raises half way followed by lookups; a second network derived from the first, both alive
+    "dim/remove-lanelet-list-raises-half-way", "dim/remove-lanelet-unregistered", "dim/half-removed-list-then-lookup",
+    "dim/replace-network-raises-half-way",
+    "fam/duo", "dim/sibling-from_list", "dim/sibling-from-list-no-cleanup", "dim/sibling-from-list-cleanup", "dim/sibling-from_network",
+    "dim/sibling-deepcopy", "dim/sibling-pickle", "dim/sibling-add_from", "dim/sibling-shares-lanelets",
+    "dim/sibling-mutated-then-other-queried"]
 
 TOL = 1e-9
 
@@ -394,14 +411,18 @@ DIMENSIONS = {'TrajectoryPrediction': {'trajectory': 'varied: 1..8 states; KSSta
                                  'read by polygon, distances or the index (C09/C10/C07)'},
  'LaneletNetwork': {'information': 'fixed: map meta data',
                     'add_lanelet': 'varied: op add, rtree True / False, duplicate id, through Scenario.add_objects; failing variant fail/add_type',
-                    'add_lanelets_from_network': 'varied: op add_from incl. a refused lanelet',
+                    'add_lanelets_from_network': 'varied: op add_from incl. a refused lanelet; fam duo: a second network made by it, which then SHARES the '
+                                                 "source's lanelet objects (derivation add_from; bucket dim/sibling-shares-lanelets)",
                     'remove_lanelet': 'varied: op remove, rtree True / False, unknown id, through Scenario.remove_lanelet single and list form '
-                                      '(remove_many)',
+                                      '(remove_many), which may raise half way',
                     'translate_rotate': 'varied: op tr (network / scenario); raises half way on a 3-D lanelet, history goes on; failing variants '
                                         'fail/tr_angle, fail/tr_vector',
                     'convert_to_2d': 'varied: op to2d (network / scenario)',
-                    'create_from_lanelet_list': "varied: initial network, cleanup_ids True / False; also the oracle's rebuild",
-                    'create_from_lanelet_network': "varied: op create_from (continue on the result); with a region: query q_find 'subnet'",
+                    'create_from_lanelet_list': "varied: initial network, cleanup_ids True / False; also the oracle's rebuild; fam duo: called on the "
+                                                "lanelets ANOTHER live network holds (network.lanelets / find_lanelet_by_id), cleanup_ids True / False, both networks "
+                                                "mutated and queried afterwards (dim/sibling-from-list-no-cleanup, -cleanup)",
+                    'create_from_lanelet_network': "varied: op create_from (continue on the result); with a region: query q_find 'subnet'; fam duo: source "
+                                                   "and result both stay alive (dim/sibling-from_network)",
                     'find_lanelet_by_position': "query: q_find 'pos'",
                     'find_lanelet_by_shape': "query: q_find 'circle' / 'rect'",
                     'find_most_likely_lanelet_by_state': "query: q_find 'state'",
@@ -482,8 +503,11 @@ DIMENSIONS = {'TrajectoryPrediction': {'trajectory': 'varied: 1..8 states; KSSta
  'Scenario': {'translate_rotate': "varied: op tr via 'scenario' (obstacle and network families)",
               'convert_to_2d': "varied: op to2d via 'scenario'",
               'add_objects': "varied: obstacle, lanelet, lanelet network (op replace 'add_objects')",
-              'remove_lanelet': 'varied: single and list form',
-              'replace_lanelet_network': 'varied: op replace',
+              'remove_lanelet': 'varied: single and list form; the list may name a stranger, a lanelet twice, or a lanelet the scenario has not '
+                                'registered (added through scenario.lanelet_network.add_lanelet): KeyError half way, lookups follow; referenced_elements '
+                                'True / False',
+              'replace_lanelet_network': 'varied: op replace; raises half way (in erase_lanelet_network) at a lanelet the scenario has not registered, '
+                                         'lookups follow (dim/replace-network-raises-half-way)',
               'erase_lanelet_network': 'fixed: called by replace_lanelet_network',
               'occupancies_at_time_step': "query: q_occ via 'scenario'",
               'obstacle_states_at_time_step': "query: q_state via 'scenario'",
@@ -1761,6 +1785,49 @@ def run_lan(ctx, case, model=True):
     compare(ctx, case, impl, model_out, "lanelet history vs CR.Cache.Lan.run")
 
 
+def g_remove_list(r, present, seen, unreg):
+    """Argument of Scenario.remove_lanelet: 1..3 lanelets of the network, then possibly spoilt — a stranger (id never in the network, or
+    removed earlier), the same lanelet twice, a lanelet the scenario has not registered — at any position of the list."""
+    ids = r.sample(sorted(present), min(len(present), r.choice([1, 2, 2, 3])))
+    gone = [lid for lid in seen if lid not in present]
+    if r.random() < 0.6:
+        spoil = r.choice(["stranger", "stranger", "twice", "unregistered"] + (["unregistered"] * 4 if set(present) & set(unreg) else []))
+        if spoil == "stranger":
+            ids.insert(r.randrange(0, len(ids) + 1), r.choice(gone + [99]))
+        elif spoil == "twice":
+            ids.insert(r.randrange(1, len(ids) + 1), ids[0])
+        else:
+            u = sorted(set(present) & set(unreg))
+            if u:
+                x = r.choice(u)
+                if x in ids:
+                    ids.remove(x)
+                ids.insert(r.randrange(0, len(ids) + 1), x)
+    opts = {}
+    if len(ids) == 1 and r.random() < 0.5:
+        opts["single"] = True                     # scenario.remove_lanelet(lanelet) instead of ([lanelet])
+    if r.random() < 0.25:
+        opts["ref"] = False                       # referenced_elements=False
+    return ids, opts
+
+
+def removed_by_list(ids, present, unreg):
+    """Which lanelets Scenario.remove_lanelet(list) takes out of the network as its documentation says: in order, until an entry is not in
+    the network (KeyError before anything happens to it) or not in the scenario's id set (KeyError after the network dropped it)."""
+    left, out = set(present), []
+    for lid in ids:
+        if lid not in left:
+            break
+        left.discard(lid)
+        out.append(lid)
+        if lid in unreg:
+            break
+    return out
+
+
+STRANGER = {"x0": 500.0, "y0": 300.0, "n": 2, "dx": 5.0, "w": 2.0, "bend": 0.0, "taper": 0.0, "z": None, "pre": []}
+
+
 def gen_net(ctx):
     r = ctx.rng
     wrap = r.choice(["none", "none", "scenario"])
@@ -1777,6 +1844,8 @@ def gen_net(ctx):
     ops = case["ops"]
     v = 0
     tree = bool(n0)
+    unreg = set()                                              # ids in the scenario's network the scenario has not registered
+    ops_mut = []
 
     def queries():
         qs = []
@@ -1811,8 +1880,14 @@ def gen_net(ctx):
             kinds += ["l_tr", "l_tr", "l_to2d"]
         kinds += ["create_from", "fail"]
         if wrap == "scenario":
-            kinds += ["replace", "replace"] + (["remove_many"] if len(present) >= 2 else [])
+            kinds += ["replace", "replace"] + (["remove_many", "remove_many"] if present else [])
+            if set(present) & unreg:
+                kinds += ["remove_many"] * 6 + ["replace"] * 6 + ["remove"] * 3       # a lanelet the scenario has not registered is there
         k = r.choice(kinds)
+        force_unreg = wrap == "scenario" and not ops_mut and r.random() < 0.3
+        if force_unreg:
+            k = "add"           # start with a lanelet added behind the scenario's back: scenario.lanelet_network.add_lanelet(…)
+        ops_mut.append(k)
         v += 1
         if k == "create_from":
             # continue on the network built by the alternative constructor create_from_lanelet_network (unwrapped networks only)
@@ -1833,19 +1908,27 @@ def gen_net(ctx):
             for _i in range(r.choice([1, 2, 3])):
                 sps.append(g_lanelet(r, next_id, False))
                 next_id += 1
-            ops.append(["replace", sps, r.choice(["replace_lanelet_network", "add_objects"])])
-            present = {sp["id"]: False for sp in sps}
-            for sp in sps:
-                seen[sp["id"]] = [v]
+            method = r.choice(["replace_lanelet_network", "add_objects"])
+            ops.append(["replace", sps, method])
+            if method == "replace_lanelet_network" and set(present) & unreg:
+                # erase_lanelet_network removes lanelet by lanelet and raises at the first one the scenario has not registered
+                for lid in removed_by_list(list(present), present, unreg):
+                    present.pop(lid, None)
+            else:
+                present = {sp["id"]: False for sp in sps}
+                for sp in sps:
+                    seen[sp["id"]] = [v]
             tree = True
             ops += queries()
             continue
         if k == "remove_many":
-            ids = r.sample(sorted(present), 2)
-            ops.append(["remove_many", ids])        # the list form of Scenario.remove_lanelet
-            for lid in ids:
+            # Scenario.remove_lanelet with a list (or one lanelet) that may name strangers, a lanelet twice, or a lanelet the
+            # scenario never registered: the call raises half way, after the removals before the offending entry
+            ids, opts = g_remove_list(r, present, seen, unreg)
+            ops.append(["remove_many", ids, opts])
+            for lid in removed_by_list(ids, present, unreg):
                 present.pop(lid, None)
-            v += 1                                    # (two removals for the model)
+            v += len(ids) - 1                         # (one version per entry)
             ops += queries()
             continue
         if k in ("l_tr", "l_to2d"):
@@ -1888,14 +1971,17 @@ def gen_net(ctx):
                 break
             continue
         if k == "add":
-            if r.random() < 0.1 and present:
+            if r.random() < 0.1 and present and not force_unreg:
                 sp = g_lanelet(r, r.choice(sorted(present)), allow3d)     # duplicate id: refused
                 ops.append(["add", sp, True, "net"])
             else:
                 sp = g_lanelet(r, next_id, allow3d)
                 next_id += 1
                 rt = not (wrap == "none" and r.random() < 0.12)
-                ops.append(["add", sp, rt, "scenario" if wrap == "scenario" else "net"])
+                via = "scenario" if (wrap == "scenario" and r.random() < 0.6 and not force_unreg) else "net"
+                if wrap == "scenario" and via == "net":
+                    unreg.add(sp["id"])               # scenario.lanelet_network.add_lanelet(…): the scenario's id set does not learn the id
+                ops.append(["add", sp, rt, via])
                 present[sp["id"]] = sp["z"] is not None
                 seen[sp["id"]] = [v]
                 tree = rt or tree
@@ -1989,10 +2075,14 @@ def run_net(ctx, case, model=True):
         if sp.get("stop"):
             ctx.tag("dim/lanelet-stop-line")
     scen = None
+    reg = set()             # the harness's own account of the lanelet ids the scenario has registered (add_objects)
+    graveyard = {}          # lanelet objects that were in the network once
+    half_removed = [False]  # Scenario.remove_lanelet raised after it had removed lanelets, no other mutator since
     if case["wrap"] == "scenario":
         ctx.tag("wrap/scenario")
         scen = Scenario(0.1)
         scen.add_objects(net)
+        reg = {sp["id"] for sp in case["lanelets"]}
 
     def cur():
         return scen.lanelet_network if scen is not None else net
@@ -2063,6 +2153,8 @@ def run_net(ctx, case, model=True):
             got = q_find(nw, qkind, pts)
             rows.query("networkIndex")
             if not suspended and not half_moved[0]:
+                if half_removed[0]:
+                    ctx.tag("dim/half-removed-list-then-lookup")
                 want = q_find(fresh_network(nw.lanelets), qkind, pts)
                 if same(got, want):
                     rows.agreed("networkIndex")
@@ -2099,12 +2191,16 @@ def run_net(ctx, case, model=True):
             continue
         # ---------------- mutators
         v += 1
+        if k not in ("remove_many", "replace"):
+            half_removed[0] = False
         if k == "add":
             sp, rt, via = op[1], op[2], op[3]
             la = b_lanelet(sp)
             if via == "scenario" and scen is not None:
                 r = call(scen.add_objects, la)
                 r = ("ok", True) if r[0] == "ok" else r
+                if r[0] == "ok":
+                    reg.add(sp["id"])
             else:
                 r = call(nw.add_lanelet, la, rt)
             if not rt:
@@ -2132,11 +2228,13 @@ def run_net(ctx, case, model=True):
                 ctx.tag("net/add-from-refused")
         elif k == "remove":
             lid, rt, via = op[1], op[2], op[3]
-            if via == "scenario" and scen is not None:
+            through_scenario = via == "scenario" and scen is not None
+            if through_scenario:
                 la = next((x for x in nw.lanelets if x.lanelet_id == lid), None)
                 if la is None:
                     v -= 1
                     continue
+                graveyard[lid] = la
                 r = call(scen.remove_lanelet, la)
             else:
                 r = call(nw.remove_lanelet, lid, rt)
@@ -2146,11 +2244,18 @@ def run_net(ctx, case, model=True):
             else:
                 suspended = False
             rows.mutate("networkIndex", "netRemoveLanelet")
-            if r[0] == "ok":
+            if all(x.lanelet_id != lid for x in nw.lanelets):
                 taint.pop(lid, None)          # the stale entry goes with its lanelet
                 if taint and rt:
                     rebuilt_while_tainted[0] = True
-            m_ops.append(["remove", lid, bool(rt)])
+            if through_scenario:
+                # Scenario.remove_lanelet raises KeyError AFTER the network dropped a lanelet the scenario has not registered
+                if lid not in reg:
+                    ctx.tag("dim/remove-lanelet-unregistered")
+                m_ops.append(["remove_many", [[lid, lid in reg]]])
+                reg.discard(lid)
+            else:
+                m_ops.append(["remove", lid, bool(rt)])
             out = "ok" if r[0] == "ok" else {"err": r[1]}
         elif k == "tr":
             tr, ang, via = np.array(op[1], dtype=float), op[2], op[3]
@@ -2214,37 +2319,66 @@ def run_net(ctx, case, model=True):
                 v -= 1
                 continue
             newnet = LaneletNetwork.create_from_lanelet_list([b_lanelet(sp) for sp in op[1]], cleanup_ids=False)
+            held = [x.lanelet_id for x in nw.lanelets]
+            graveyard.update({x.lanelet_id: x for x in nw.lanelets})
+            not_reg = sorted(set(held) - reg)
             r = call(scen.replace_lanelet_network, newnet) if op[2] == "replace_lanelet_network" else call(scen.add_objects, newnet)
             if r[0] == "ok":
                 taint.clear()
                 suspended, half_moved[0] = False, False
+                reg = {sp["id"] for sp in op[1]}
+            else:
+                # replace_lanelet_network erases lanelet by lanelet first and raises at one the scenario has not registered
+                now = {x.lanelet_id for x in cur().lanelets}
+                for lid in held:
+                    if lid not in now:
+                        taint.pop(lid, None)
+                if len(now) < len(held):
+                    half_removed[0] = True
+                    ctx.tag("dim/replace-network-raises-half-way")
             ctx.tag("dim/replace-network")
             rows.mutate("networkIndex", "netReplace")
             for it in LAN_ITEM.values():
                 rows.mutate(it, "netReplace")
-            m_ops.append(["replace", [[sp["id"], lan_tok(sp, v)] for sp in op[1]]])
+            new_toks = [[sp["id"], lan_tok(sp, v)] for sp in op[1]]
+            if op[2] == "replace_lanelet_network":
+                m_ops.append(["replace_erase", not_reg, new_toks])
+                if r[0] != "ok":
+                    reg.difference_update(removed_by_list(held, held, set(not_reg)))
+            else:
+                m_ops.append(["replace", new_toks])
             out = "ok" if r[0] == "ok" else {"err": r[1]}
         elif k == "remove_many":
             if scen is None:
                 v -= 1
                 continue
-            objs = [x for x in nw.lanelets if x.lanelet_id in op[1]]
-            r = call(scen.remove_lanelet, objs)
+            opts = op[2] if len(op) > 2 else {}
+            held = {x.lanelet_id: x for x in nw.lanelets}
+            graveyard.update(held)
+            # a lanelet object for every entry: the network's own, one it held earlier, or a stranger it never held
+            objs = [held.get(lid) or graveyard.get(lid) or b_lanelet(dict(STRANGER, id=lid)) for lid in op[1]]
+            args = [objs[0] if (opts.get("single") and len(objs) == 1) else objs] + ([False] if opts.get("ref") is False else [])
+            r = call(scen.remove_lanelet, *args)
             ctx.tag("dim/remove-lanelet-list")
             rows.mutate("networkIndex", "netRemoveLanelet")
-            if r[0] == "ok":
-                for lid in op[1]:
+            now = {x.lanelet_id for x in nw.lanelets}
+            for lid in op[1]:
+                if lid not in now:
                     taint.pop(lid, None)
+            if taint:
+                rebuilt_while_tainted[0] = True
+            half_removed[0] = r[0] == "err" and len(now) < len(held)
+            if half_removed[0]:
+                ctx.tag("dim/remove-lanelet-list-raises-half-way")
+                if any(lid in held and lid not in reg for lid in op[1]):
+                    ctx.tag("dim/remove-lanelet-unregistered")
             out = "ok" if r[0] == "ok" else {"err": r[1]}
-            # for the model: one removal per lanelet (the first one is recorded here, the last one below)
-            for lid in op[1][:-1]:
-                m_ops.append(["remove", lid, True])
+            # the model is told which ids the scenario has registered (the harness's own account) and says where the call stops
+            m_ops.append(["remove_many", [[lid, lid in reg] for lid in op[1]]])
+            reg.difference_update(removed_by_list(op[1], held, set(held) - reg))
+            for _lid in op[1][:-1]:           # (one version per entry)
                 snapshot(v)
-                impl.append(out)
-                kinds.append("remove")
-                qargs.append(None)
                 v += 1
-            m_ops.append(["remove", op[1][-1], True])
         elif k == "fail":
             fk = op[1]
 
@@ -2302,6 +2436,313 @@ def run_net(ctx, case, model=True):
         else:
             model_out.append(a)
     compare(ctx, case, impl, model_out, "lanelet network history vs CR.Cache.Net.run")
+
+
+# ------------------------------------------------------------------------------------------------ two networks side by side
+
+DERIVE_NAMES = {"from_list": "create_from_lanelet_list", "from_network": "create_from_lanelet_network", "deepcopy": "deepcopy",
+                "pickle": "pickle", "add_from": "add_lanelets_from_network"}
+DERIVATIONS = [["from_list", False], ["from_list", False], ["from_list", True], ["from_network"], ["deepcopy"], ["pickle"], ["add_from"]]
+SHARING = "LaneletNetwork.translate_rotate(sibling-sharing-lanelets)"
+DUO_MUT = {"tr": "LaneletNetwork.translate_rotate", "to2d": "LaneletNetwork.convert_to_2d", "add": "LaneletNetwork.add_lanelet",
+           "remove": "LaneletNetwork.remove_lanelet", "deepcopy": "LaneletNetwork.deepcopy", "pickle": "LaneletNetwork.pickle"}
+
+
+def gen_duo(ctx):
+    """A network, a few operations on it, then a SECOND network derived from it through a public factory / copy / adder; both stay
+    alive: mutators on either, every mutator followed by queries on BOTH (at the places the lanelets of both networks occupy
+    and occupied)."""
+    r = ctx.rng
+    how = r.choice(DERIVATIONS)
+    shares = how[0] == "add_from"
+    allow3d = (not shares) and r.random() < 0.3
+    n0 = r.choice([1, 2, 3])
+    lans = [g_lanelet(r, i + 1, allow3d) for i in range(n0)]
+    next_id = [n0 + 1]
+    case = {"fam": "duo", "lanelets": lans, "cleanup": r.random() < 0.5, "wrap": {"a": r.random() < 0.35, "b": r.random() < 0.35},
+            "derive": how, "arg": r.choice(["lanelets", "by_id"]), "ops": []}
+    present = {"a": {sp["id"]: sp["z"] is not None for sp in lans}, "b": {}}
+    seen = {"a": {sp["id"]: [0] for sp in lans}, "b": {}}        # side -> id -> versions at which the model says its place changed
+    ops = case["ops"]
+    v = [0]
+    alive = ["a"]
+
+    def queries(sides):
+        qs = []
+        for side in sides:
+            other = "b" if side == "a" else "a"
+            pts = []
+            for lid in list(present[side])[:3]:
+                pts.append([lid, "cur", r.randrange(0, 6)])                                  # where the lanelet object is now
+                pts.append([lid, seen[side][lid][-1], r.randrange(0, 6)])                     # where the history put it
+                if len(seen[side][lid]) > 1 and r.random() < 0.7:
+                    pts.append([lid, seen[side][lid][r.randrange(0, len(seen[side][lid]) - 1)], 0])
+            if other in alive:
+                for lid in list(present[other])[:2]:
+                    pts.append([lid, seen[other][lid][-1], r.randrange(0, 6)])               # where the sibling's lanelets are
+            for lid in seen[side]:
+                if lid not in present[side] and r.random() < 0.6:
+                    pts.append([lid, seen[side][lid][-1], 0])
+            pts.append([0, "far", 0])
+            qs.append([side, "q_find", r.choice(["pos", "pos", "circle", "rect"]), pts])
+            for lid in r.sample(sorted(present[side]), min(len(present[side]), r.choice([0, 1, 2]))):
+                qs.append([side, r.choice(["q_poly", "q_dist", "q_inner"]), lid])
+        r.shuffle(qs)
+        return qs
+
+    def mutator(side):
+        other = "b" if side == "a" else "a"
+        wrapped = case["wrap"][side]
+        kinds = ["tr", "tr", "tr", "tr", "add", "to2d"] + (["remove"] if present[side] else []) + (["deepcopy", "pickle"] if r.random() < 0.3 else [])
+        k = r.choice(kinds)
+        if k == "tr" and any(present[side].values()):
+            k = "to2d"                                  # (3-D lanelets: translate_rotate would raise half way — a dimension of fam net)
+        v[0] += 1
+        via = "scenario" if (wrapped and r.random() < 0.6) else "net"
+        if k == "tr":
+            t, a = g_motion_nz(r)
+            ops.append([side, "tr", t, a, via])
+            for lid in present[side]:
+                seen[side][lid].append(v[0])
+                if shares and lid in shared:
+                    seen[other][lid].append(v[0])       # one object: it has moved in the other network as well
+        elif k == "to2d":
+            ops.append([side, "to2d", via])
+            for lid in present[side]:
+                present[side][lid] = False
+        elif k == "add":
+            sp = g_lanelet(r, next_id[0], allow3d)
+            next_id[0] += 1
+            ops.append([side, "add", sp, via])
+            present[side][sp["id"]] = sp["z"] is not None
+            seen[side][sp["id"]] = [v[0]]
+        elif k == "remove":
+            lid = r.choice(sorted(present[side]))
+            ops.append([side, "remove", lid, via])
+            present[side].pop(lid)
+            shared.discard(lid)
+        else:
+            ops.append([side, k])
+            if not (side == "a" and "b" not in alive):
+                shared.clear()
+
+    shared = set()
+    ops += queries(["a"])
+    for _ in range(r.choice([0, 0, 1, 2])):
+        mutator("a")
+        ops += queries(["a"])
+    ops.append(["derive"])
+    alive.append("b")
+    present["b"] = dict(present["a"])
+    seen["b"] = {lid: list(vs) for lid, vs in seen["a"].items()}
+    if shares:
+        shared |= set(present["a"])
+    ops += queries(["a", "b"])
+    first = r.choice(["a", "a", "b"])
+    for i in range(r.choice([1, 2, 2, 3])):
+        mutator(first if i == 0 else r.choice(["a", "b"]))
+        ops += queries(["a", "b"])
+        if len(ops) >= 22:
+            break
+    return case
+
+
+def run_duo(ctx, case, model=True):
+    import numpy as np
+    from commonroad.scenario.lanelet import LaneletNetwork
+    from commonroad.scenario.scenario import Scenario
+    ctx.tag("fam/duo")
+    how = case["derive"]
+    nets = {"a": LaneletNetwork.create_from_lanelet_list([b_lanelet(sp) for sp in case["lanelets"]], cleanup_ids=bool(case.get("cleanup"))),
+            "b": None}
+    scens = {"a": None, "b": None}
+
+    reg = {"a": set(), "b": set()}     # the harness's own account of the lanelet ids each scenario has registered
+
+    def wrap(side):
+        if case["wrap"].get(side):
+            scens[side] = Scenario(0.1)
+            scens[side].add_objects(nets[side])
+            reg[side] = {la.lanelet_id for la in nets[side].lanelets}
+
+    def cur(side):
+        return scens[side].lanelet_network if scens[side] is not None else nets[side]
+    wrap("a")
+    snaps = {0: {la.lanelet_id: fresh_lanelet(la) for la in cur("a").lanelets}}
+    m_lans = [[sp["id"], lan_tok(sp, 0)] for sp in case["lanelets"]]
+    m_pre, m_ops, impl, kinds, qargs = [], [], [], [], []
+    v = 0
+    muts = []                       # (side, name) of every mutator so far, the derivation included
+    ok_at = {}                      # (side, cache) -> len(muts) when the oracle last agreed on it
+    born = [0]
+    half = {"a": False, "b": False}
+    shared = set()                  # the harness's own account of the lanelet ids that are ONE object in both networks
+    taint = {"a": set(), "b": set()}    # ids whose object the OTHER network's translate_rotate moved since this side's index was built
+
+    def blame(side, item):
+        since = muts[ok_at.get((side, item), born[0] if side == "b" else 0):]
+        if not since:
+            return "construction"
+        moves = [m for m in since if not m[1].endswith("." + DERIVE_NAMES[how[0]])]      # a real mutator before the derivation as such
+        s, name = (moves or since)[0]
+        return name if s == side else f"{name}(sibling-via-{DERIVE_NAMES[how[0]]})"
+
+    def record(side, op_m):
+        (m_ops if nets["b"] is not None else m_pre).append([side, op_m] if nets["b"] is not None else op_m)
+
+    for idx, op in enumerate(case["ops"]):
+        if op[0] == "derive":
+            if nets["b"] is not None:
+                continue
+            src = cur("a")
+            arg = src.lanelets if case.get("arg") != "by_id" else [src.find_lanelet_by_id(la.lanelet_id) for la in src.lanelets]
+            if how[0] == "from_list":
+                nets["b"] = LaneletNetwork.create_from_lanelet_list(arg, cleanup_ids=bool(how[1]))
+                ctx.tag("dim/sibling-from-list-cleanup" if how[1] else "dim/sibling-from-list-no-cleanup")
+            elif how[0] == "from_network":
+                nets["b"] = LaneletNetwork.create_from_lanelet_network(src)
+            elif how[0] == "deepcopy":
+                nets["b"] = copy.deepcopy(src)
+            elif how[0] == "pickle":
+                nets["b"] = pickle.loads(pickle.dumps(src))
+            elif how[0] == "add_from":
+                nets["b"] = LaneletNetwork()
+                nets["b"].add_lanelets_from_network(src)
+                shared = {la.lanelet_id for la in src.lanelets}
+                ctx.tag("dim/sibling-shares-lanelets")
+            else:
+                raise InfraError(f"unknown derivation {how}")
+            ctx.tag("dim/sibling-" + how[0])
+            wrap("b")
+            born[0] = len(muts)
+            muts.append(("b", "LaneletNetwork." + DERIVE_NAMES[how[0]]))
+            continue
+        side, k = op[0], op[1]
+        if nets[side] is None:
+            continue
+        other = "b" if side == "a" else "a"
+        nw = cur(side)
+        if k == "q_find":
+            pts = []
+            for lid, ver, j in op[3]:
+                if ver == "far":
+                    pts.append([12345.5, -6789.25])
+                    continue
+                src = next((la for la in nw.lanelets if la.lanelet_id == lid), None) if ver == "cur" else snaps.get(ver, {}).get(lid)
+                if src is not None:
+                    pts.append(probe_point(src, j))
+            qkind = op[2]
+            got = q_find(nw, qkind, pts)
+            if not half[side]:
+                want = q_find(fresh_network(nw.lanelets), qkind, pts)
+                if nets["b"] is not None and muts and muts[-1][0] == other and muts[-1][1] != "LaneletNetwork." + DERIVE_NAMES[how[0]]:
+                    ctx.tag("dim/sibling-mutated-then-other-queried")
+                if same(got, want):
+                    ok_at[(side, "index")] = len(muts)
+                else:
+                    site = "find_lanelet_by_position" if qkind == "pos" else "find_lanelet_by_shape"
+                    culprit = SHARING if taint[side] else blame(side, "index")
+                    stale(ctx, case, idx, site, culprit,
+                          f"two networks, the second made by {DERIVE_NAMES[how[0]]}: {site} on network {side} after {{M}} answers "
+                          f"{json.dumps(got)[:160]} for {json.dumps(pts)[:120]}; a network rebuilt from its current lanelets answers "
+                          f"{json.dumps(want)[:160]}", taint=culprit)
+            impl.append(got)
+            kinds.append(k)
+            qargs.append((qkind, pts))
+            record(side, ["q_find"])
+            continue
+        if k in LAN_ITEM:
+            la = next((x for x in nw.lanelets if x.lanelet_id == op[2]), None)
+            if la is None:
+                continue
+            got, checks = ask_lanelet(ctx, la, k, None)
+            for name, g, w in checks:
+                if same(g, w):
+                    ok_at[(side, (k, op[2]))] = len(muts)
+                else:
+                    culprit = blame(side, (k, op[2]))
+                    stale(ctx, case, idx, name, culprit,
+                          f"two networks, the second made by {DERIVE_NAMES[how[0]]}: {name} of lanelet {op[2]} of network {side} after {{M}} is "
+                          f"{json.dumps(g)[:160]}; a lanelet rebuilt from the current vertices gives {json.dumps(w)[:160]}", taint=culprit)
+            impl.append(got)
+            kinds.append(k)
+            qargs.append(op[2])
+            record(side, [k, op[2]])
+            continue
+        # ---------------- mutators (every one counts a version, whether it does anything or not)
+        v += 1
+        scen = scens[side]
+        via_scen = scen is not None and len(op) > 2 and op[-1] == "scenario"
+        name = DUO_MUT[k].replace("LaneletNetwork.", "Scenario.") if via_scen else DUO_MUT[k]
+        if k == "tr":
+            tr, ang = np.array(op[2], dtype=float), op[3]
+            r = call(scen.translate_rotate, tr, ang) if via_scen else call(nw.translate_rotate, tr, ang)
+            if r[0] == "ok":
+                half[side] = False
+                taint[side].clear()                      # its own translate_rotate rebuilds every entry
+            else:
+                half[side] = True                        # raised at a 3-D lanelet (see fam net): not judged until rebuilt
+                if shared:
+                    half[other] = True
+            taint[other] |= shared                       # the other network holds the same objects and is not told
+            record(side, ["tr", v])
+        elif k == "to2d":
+            r = call(scen.convert_to_2d) if via_scen else call(nw.convert_to_2d)
+            record(side, ["to2d", v])
+        elif k == "add":
+            la = b_lanelet(op[2])
+            r = call(scen.add_objects, la) if via_scen else call(nw.add_lanelet, la)
+            if via_scen and r[0] == "ok":
+                r = ("ok", True)
+                reg[side].add(op[2]["id"])
+            record(side, ["add", op[2]["id"], lan_tok(op[2], v), True])
+        elif k == "remove":
+            la = next((x for x in nw.lanelets if x.lanelet_id == op[2]), None)
+            if via_scen and la is not None:
+                # Scenario.remove_lanelet raises KeyError after the network dropped a lanelet the scenario has not registered
+                r = call(scen.remove_lanelet, la)
+                record(side, ["remove_many", [[op[2], op[2] in reg[side]]]])
+                reg[side].discard(op[2])
+            else:
+                r = call(nw.remove_lanelet, op[2])
+                record(side, ["remove", op[2], True])
+            shared.discard(op[2])
+            taint[side].discard(op[2])                   # the stale entry goes with its lanelet
+        elif k in ("deepcopy", "pickle"):
+            f = copy.deepcopy if k == "deepcopy" else (lambda x: pickle.loads(pickle.dumps(x)))
+            r = call(f, scen if scen is not None else nets[side])
+            if r[0] == "ok":
+                if scen is not None:
+                    scens[side] = r[1]
+                else:
+                    nets[side] = r[1]
+            if nets["b"] is not None:
+                shared = set()                           # the copy holds copies
+            record(side, [k])
+        else:
+            raise InfraError(f"unknown duo op {k}")
+        muts.append((side, name))
+        snaps[v] = {la.lanelet_id: fresh_lanelet(la) for la in cur(side).lanelets}
+        out = (r[1] if k == "add" else "ok") if r[0] == "ok" else {"err": r[1]}
+        impl.append(out)
+        kinds.append(k)
+        qargs.append(None)
+
+    ctx.case(case)
+    if not model:
+        return
+    out = ctx.driver.ask("C11", "duo_run", {"lanelets": m_lans, "pre": m_pre, "derive": how, "ops": m_ops})
+    flat = m_pre + [o[1] for o in m_ops]
+    model_out = []
+    for k, a, qa, mo in zip(kinds, out, qargs, flat):
+        if k == "q_find" and isinstance(a, list):
+            missing = [[lid, ver] for lid, ver in a if lid not in snaps.get(ver, {})]
+            model_out.append({"no-snapshot": missing} if missing else q_find(fresh_network([snaps[ver][lid] for lid, ver in a]), qa[0], qa[1]))
+        elif k in LAN_ITEM and isinstance(a, int):
+            model_out.append(q_lanelet(fresh_lanelet(snaps[a][qa]), k, None) if qa in snaps.get(a, {}) else {"no-snapshot": [qa, a]})
+        else:
+            model_out.append(a)
+    compare(ctx, case, impl, model_out, "two lanelet networks side by side vs CR.Cache.Duo.run")
 
 
 # ------------------------------------------------------------------------------------------------ traffic light cycle
@@ -2573,8 +3014,8 @@ def run_cyc(ctx, case, model=True):
 
 # ------------------------------------------------------------------------------------------------ entry points
 
-RUNNERS = {"obs": run_obs, "net": run_net, "lan": run_lan, "cyc": run_cyc}
-GENS = [("obs", gen_obs, 5), ("net", gen_net, 4), ("lan", gen_lan, 2), ("cyc", gen_cyc, 2)]
+RUNNERS = {"obs": run_obs, "net": run_net, "lan": run_lan, "cyc": run_cyc, "duo": run_duo}
+GENS = [("obs", gen_obs, 5), ("net", gen_net, 4), ("lan", gen_lan, 2), ("cyc", gen_cyc, 2), ("duo", gen_duo, 1)]
 
 
 def check_table(ctx):
@@ -2648,7 +3089,7 @@ def shrink(case, key):
         return case
     ops = shrink_list(case["ops"], lambda ops: _fails(dict(case, ops=ops), key))
     case = dict(case, ops=ops)
-    if case["fam"] == "net" and len(case["lanelets"]) > 1:
+    if case["fam"] in ("net", "duo") and len(case["lanelets"]) > 1:
         lans = shrink_list(case["lanelets"], lambda ls: _fails(dict(case, lanelets=ls), key))
         case = dict(case, lanelets=lans)
     return case
